@@ -94,6 +94,7 @@ class Conn:
         self.closed_by_client = False
         self.ended = False  # EOF / RST / stall decided: nothing more will be delivered
         self.tamper: t.Optional[t.Callable[[Conn, int, bytes], t.Optional[bytes]]] = None
+        self.tx_tamper: t.Optional[t.Callable[[Conn, int, bytes], t.Optional[bytes]]] = None  # adversary on the request path
         self.stats = world.stats
 
     # ---- peer side API -------------------------------------------------
@@ -151,9 +152,16 @@ class Conn:
         raise NotImplementedError
 
     # ---- client side helper -----------------------------------------
-    def _client_wrote(self, data: bytes) -> None:
+    def _client_wrote(self, data: bytes) -> bytes:
+        """Records what the client wrote; returns what reaches the peer (the request-path adversary may alter it)."""
         self.tx_log.append(bytes(data))
         self.world.log("net.tx", self.cid, len(data))
+        if self.tx_tamper is not None:
+            new = self.tx_tamper(self, len(self.tx_log) - 1, bytes(data))
+            if new is not None:
+                self.stats["reqtear"] += 1
+                return new
+        return bytes(data)
 
 
 class SimSocket(Conn):
@@ -178,8 +186,7 @@ class SimSocket(Conn):
     def sendall(self, data) -> None:
         if self.closed_by_client:
             raise OSError(9, "Bad file descriptor")
-        data = bytes(data)
-        self._client_wrote(data)
+        data = self._client_wrote(bytes(data))
         self.peer.on_data(self, data)
 
     def _next(self, n: int) -> bytes:
